@@ -71,13 +71,14 @@ example : target [] (some [0, 1, 0, 0, 1, 100]) [82, 0x8E] = .ok [[100], [82, 0x
 
 -- ---------------------------------------------------------------- the three views agree
 
-/-- For a regular file without resource fork: size in the list = size in get-info = file size in the
+/-- For a regular file without resource fork (reached through real folders: no file or alias among the
+    proper prefixes of its path, `hplain`): size in the list = size in get-info = file size in the
     download reply = number of bytes on disk (as uint32), and the type code in the list = the type
     code in get-info. -/
 theorem views_agree (root : Path) (ig : Bytes → Bool) (fs : FS) (pf : Option Bytes) (name : Bytes) (d : Path) (n : Comp)
     (b : Bytes) (f : Ffo)
     (ht : target root pf name = .ok (d ++ [n])) (hnr : isRoot root (d ++ [n]) = false)
-    (hfile : lookup fs (d ++ [n]) = some (.file b))
+    (hfile : lookup fs (d ++ [n]) = some (.file b)) (hplain : firstSpecial fs (d ++ [n]) = none)
     (hrsrc : statOk fs (wrapper (d ++ [n])).rsrc = none)
     (hffo : ffo fs (d ++ [n]) = .ok f) (en : Bytes) (hen : encStr (wrapper (d ++ [n])).name = some en) :
     let ty := f.fork.ty.take 4
@@ -86,7 +87,7 @@ theorem views_agree (root : Path) (ig : Bytes → Bool) (fs : FS) (pf : Option B
     (getInfo root fs pf name).2 = .info en (friendly ty) (friendly (f.fork.creator.take 4)) ty
         (if f.fork.comment = [] then none else some f.fork.comment) (if ty = tyFldr then none else some sz) ∧
     (∃ x, (download root fs pf name).2 = .download x sz) :=
-  FileOps.views_agree root ig fs pf name d n b f ht hnr hfile hrsrc hffo en hen
+  FileOps.views_agree root ig fs pf name d n b f ht hnr hfile hplain hrsrc hffo en hen
 
 example :
     let fs : FS := [([], .dir), ([[112, 46, 106, 112, 103]], .file [1, 2, 3, 4, 5])]
